@@ -1036,11 +1036,20 @@ theorem C09_text_skip (r : Reader) (pos : Nat) (bom : Bom) (d : Bytes) (n q fuel
   · exfalso
     have := skipLoop_inv NoFaults_closed fuel r .none 1 0 hnf
     rw [hio] at this
-    exact this.2 rfl
+    exact this.2.2 rfl
   · unfold SkipOut at hok
     rw [href] at hok
     obtain ⟨r', h1, h2, _⟩ := hok
     exact ⟨r', h1, h2⟩
+
+/-- **C20, `skip_container`**: under every schedule (short reads, transient and persistent faults), slice reader or
+buffer ≥ 3, `skip_container` either reports an I/O error or does exactly what the fault-free call does: it stops right
+after the matching close of the bytewise reference (reader related to the rest), or reports `Eof` when the input ends
+first.  It never lands anywhere else and never reports success without the matching close. -/
+theorem C20_text_skip_container (r : Reader) (pos : Nat) (bom : Bom) (d : Bytes) (fuel : Nat)
+    (hrel : Rel r pos bom d) (hcap : r.cap = 0 ∨ 3 ≤ r.cap) (hfuel : r.src.rest.length + 1 ≤ fuel) :
+    (∃ r', skipContainer fuel r = .err r' .io) ∨ SkipOut (skipContainer fuel r) r.cap pos bom d .none 1 :=
+  skipLoop_spec _ r pos bom d .none 1 fuel (Nat.le_refl _) hrel hcap hfuel
 
 -- `{ "}" #}\n b="\"}" } c` after the first Open: token counting and the skipper both land on ` c`
 example : balancedSkip 20 1 .unknown [32, 34, 125, 34, 32, 35, 125, 10, 32, 98, 61, 34, 92, 34, 125, 34, 32, 125, 32, 99] 1 = some 18 := by
